@@ -160,7 +160,41 @@ func stressStmt(r *simrt.Rand) string {
 		}
 		return strings.Join(parts, sep)
 	}
-	switch r.Intn(14) {
+	switch r.Intn(16) {
+	case 14, 15:
+		// deeply nested blocks of the kinds the code generator keeps on its block
+		// stack (for / while / with / try), inside one code object
+		k := []int{3, 19, 20, 21, 22, 30, 45}[r.Intn(7)]
+		var b strings.Builder
+		kind := r.Intn(5)
+		for i := 0; i < k; i++ {
+			pad := strings.Repeat(" ", i)
+			kk := kind
+			if kind == 4 {
+				kk = (i + k) % 4
+			}
+			switch kk {
+			case 0:
+				fmt.Fprintf(&b, "%sfor i%d in (1,):\n", pad, i)
+			case 1:
+				fmt.Fprintf(&b, "%swhile x%d:\n", pad, i)
+			case 2:
+				fmt.Fprintf(&b, "%swith c%d:\n", pad, i)
+			default:
+				fmt.Fprintf(&b, "%stry:\n", pad)
+			}
+		}
+		b.WriteString(strings.Repeat(" ", k) + "t = 1\n")
+		for i := k - 1; i >= 0; i-- {
+			kk := kind
+			if kind == 4 {
+				kk = (i + k) % 4
+			}
+			if kk == 3 {
+				fmt.Fprintf(&b, "%sfinally:\n%s pass\n", strings.Repeat(" ", i), strings.Repeat(" ", i))
+			}
+		}
+		return b.String()
 	case 0:
 		return "f(" + rep("a#", n, ", ") + ")\n"
 	case 1:
